@@ -5,7 +5,7 @@
    arbitrary Check/Process failure oracles fc/fp (which may depend on the whole log so far). *)
 From Coq Require Import NArith List.
 From LV Require Import model.Buffer spec.BufferSpec proofs.BufferInv proofs.BufferTheorems proofs.BufferOld
-  proofs.BufferComplete2 proofs.BufferSpecProofs.
+  proofs.BufferComplete2 proofs.BufferSpecProofs proofs.BufferTop proofs.BufferT5Check.
 Import ListNotations.
 Local Open Scope N_scope.
 
@@ -56,6 +56,37 @@ Theorem C14_model_passes_checkers_T1_T2 : forall fc fp limN limS ops,
   t1_walk (copies_of ops) [] (hist fc fp limN limS ops) = true
   /\ t2_walk [] [] (hist fc fp limN limS ops) = true.
 Proof. exact model_passes_t1_t2. Qed.
+
+Theorem C14_model_passes_checkers_T3_T4 : forall fc fp limN limS ops,
+  t3_walk (copies_of ops) [] [] (hist fc fp limN limS ops) = true
+  /\ t4_walk limN limS (hist fc fp limN limS ops) = true.
+Proof. exact model_passes_t3_t4. Qed.
+
+(* the WHOLE executable specification (all five clauses, T5 included) accepts every history of
+   the model, for every oracle: for T5 this uses that a run in whose log nothing failed is the run
+   with never-failing oracles, and that the checker's peeling of the DAG yields a rank *)
+Theorem C14_model_passes_c14_check : forall fc fp limN limS ops,
+  c14_check limN limS ops (hist fc fp limN limS ops) = true.
+Proof. exact model_passes_c14_check. Qed.
+
+(* SOUNDNESS of the checkers that the driver runs on the IMPLEMENTATION's log: on an arbitrary
+   log l (oldest first) and copies table cs, checker = true implies the statement *)
+Theorem C14_checker_T1_sound : forall cs l, t1_walk cs [] l = true ->
+  forall pre c e ok post, l = pre ++ OProcess c e ok :: post ->
+    exists x, lookup cs c = Some x /\ eid x = e /\ forall p, In p (pars x) -> connected_by pre p.
+Proof. exact t1_sound. Qed.
+Theorem C14_checker_T2_sound : forall l, t2_walk [] [] l = true ->
+  forall pre c e ok post, l = pre ++ OProcess c e ok :: post ->
+    ~ processed_in pre c /\ ~ released_in pre c.
+Proof. exact t2_sound. Qed.
+Theorem C14_checker_T3_sound : forall cs l, t3_walk cs [] [] l = true ->
+  (forall pre c e err post, l = pre ++ OReleased c e err :: post ->
+     ~ released_in pre c /\ exists x, lookup cs c = Some x /\ eid x = e)
+  /\ (forall pre n z post, l = pre ++ OCleared n z :: post ->
+        n = 0 /\ z = 0 /\ forall c, In c (pushed_cids pre) -> released_in pre c)
+  /\ (forall pre c ok n z post, l = pre ++ OPushed c ok n z :: post ->
+        n = N.of_nat (S (length (pushed_cids pre))) - N.of_nat (length (rel_cids pre))).
+Proof. exact t3_sound. Qed.
 
 (* T5 completeness: the limits cannot bind, Check/Process never fail, the pushed events are
    distinct and form a parents-closed DAG (a rank decreasing along parent edges exists).  Then for
@@ -129,3 +160,8 @@ Print Assumptions C14_T4_push_reports_total.
 Print Assumptions C14_fuel_suffices.
 Print Assumptions C14_T5_complete.
 Print Assumptions C14_model_passes_checkers_T1_T2.
+Print Assumptions C14_model_passes_checkers_T3_T4.
+Print Assumptions C14_model_passes_c14_check.
+Print Assumptions C14_checker_T1_sound.
+Print Assumptions C14_checker_T2_sound.
+Print Assumptions C14_checker_T3_sound.
